@@ -132,6 +132,15 @@ RecipeNeverWritten == [][r' = r]_vars
 PanicIsTerminal == [][pc = "panic" => pc' = "panic"]_vars
 Terminates == <>(pc \in {"done", "err", "panic"})
 
+\* ---------------- refinement: Generate implements "pick any password of the recipe, or report an error" ----------------
+Outcome == CASE pc = "done" -> <<"ok", toks>> [] pc = "err" -> <<"err", err>> [] pc = "panic" -> <<"panic">> [] OTHER -> <<"pending">>
+AbstractStep == /\ Outcome = <<"pending">>
+                /\ \/ Outcome' = <<"pending">>
+                   \/ Outcome'[1] = "ok" /\ Size > 0 /\ r.len >= 1 /\ StructureOK(Outcome'[2])
+                   \/ Outcome'[1] = "err" /\ Outcome'[2] \in {"nolist", "length"}
+                   \/ Outcome' = <<"panic">>
+RefinesPickPassword == [][AbstractStep \/ Outcome' = Outcome]_vars
+
 \* ---------------- C04 as a counting statement over the complete choice cell ----------------
 \* a path = <<caps set, word indices, separator indices>>; every path has the same probability when
 \* the draws are uniform, so "all passwords equally likely" is "every password has the same number of paths"
